@@ -315,6 +315,17 @@ Definition declare_apply (allow_lookup : bool) (extra : list name) (scr : list n
      secrets_of pfx pfs)
   end.
 
+(* The same parsed Fields applied twice: to store sA, then to store sB (another store, or the same
+   one after a poll installed new versions, or after the first Apply partly failed).  In the Go code a
+   *Fields is a value that Apply could in principle write to (memoise a handle, remember "done");
+   in the model `apply` takes the parsed fields, the prefix and THE STORE IT IS GIVEN and nothing else,
+   so the second result cannot depend on the first Apply.  That the Go object really keeps no such
+   state is carried by the correspondence run (mode "reapply"). *)
+Definition apply_twice (pfx : bstr) (pfs : list pfield) (sA sB : store V)
+  : (store V * list fres * list name) * (store V * list fres * list name) :=
+  let first := apply pfx sA pfs in
+  (first, apply pfx sB pfs).
+
 End Apply.
 
 Arguments CUntouched {V D}.
